@@ -11,7 +11,16 @@ FailingCli == {"cli_query_missing_file", "cli_dist_bad_params", "cli_query_forei
 \* (file_sessionmaker(path, readonly=False)), only reads through it and closes it; it must not change what the DEFAULT
 \* session does afterwards
 LibCmds == {"lib_load", "lib_edit", "lib_add", "lib_delete", "lib_flush", "lib_commit", "lib_begin_block", "lib_rollback",
-            "lib_query", "lib_close", "lib_read_sigs", "lib_other_rw_reader", "lib_other_ro_reader", "lib_tree_walk"}
+            "lib_query", "lib_close", "lib_read_sigs", "lib_other_rw_reader", "lib_other_ro_reader", "lib_tree_walk",
+            "lib_bulk_update", "lib_execute_update"}
+\* statement-level writes issued through the default session (Query.update(), session.execute(update(...))): they bypass the
+\* unit of work, so neither the no-op flush nor the raising commit sees them; they go into the connection's open transaction,
+\* which nothing can commit, and are discarded by rollback / close.  While that transaction is open SQLite keeps a rollback
+\* journal next to the genome file.
+StmtCmds == {"lib_bulk_update", "lib_execute_update"}
+EndTxn == {"lib_rollback", "lib_close", "lib_load"}
+\* is a statement-level write still open after step i of the command sequence cmds?
+StmtOpen(cmds, i) == \E j \in 1..i : cmds[j] \in StmtCmds /\ \A m \in (j + 1)..i : cmds[m] \notin EndTxn
 Cmds == CliCmds \cup LibCmds
 
 \* pending new/dirty/deleted sets a READ-ONLY session may show after command c, given those before it:
